@@ -1,7 +1,9 @@
 package main
 
 import (
+	"bytes"
 	"fmt"
+	"os"
 	"strings"
 )
 
@@ -281,10 +283,70 @@ func runC12(c *runCfg) error {
 // ---------------- C10 ----------------
 func init() { runners["C10"] = runC10 }
 
+// the limit inside a TLS session (and on the plaintext continuation after 'N'): the reader constructed for
+// the upgraded connection obeys the configured limit exactly like the first one
+func runC10TLS(c *runCfg, only map[string]bool) {
+	id := 5000000
+	for _, L := range []int{100, 1024, 20000, 0, 100000} {
+		eff := L
+		if eff <= 0 {
+			eff = 1 << 24
+		}
+		var sizes []int
+		if L > 0 {
+			sizes = []int{L - 1, L, L + 1, L + 100, 3*L + 7}
+		}
+		for _, n := range []int{16383, 16384, 16385, 40000, 65536} {
+			if n > L+1 {
+				sizes = append(sizes, n)
+			}
+		}
+		for _, certs := range []bool{true, false} {
+			for _, auth := range []string{"none", "pw"} {
+				cfg := simpleCfg(L)
+				cfg.tls = certs
+				cfg.auth = auth
+				cfg.authPW = []byte("secret")
+				msgs := [][]byte{startupMsg("user", "u")}
+				if auth != "none" {
+					msgs = append(msgs, mPassword([]byte("secret")))
+				}
+				for k, n := range sizes {
+					t := []byte{'Q', 'P', 'B', 'd', 'z'}[k%5]
+					body := bytes.Repeat([]byte{'x'}, n)
+					body[n-1] = 0
+					msgs = append(msgs, msg(t, body))
+					if n > eff && (t == 'P' || t == 'B') {
+						msgs = append(msgs, mSync())
+					}
+					msgs = append(msgs, mQuery([]byte("select 1")))
+				}
+				msgs = append(msgs, mTerminate())
+				class := map[bool]string{true: "tls_limit", false: "no_certs_limit"}[certs]
+				emitTLS(c, only, &id, class, cfg, sslRequest(), nil, msgs, "")
+				// the startup packet inside TLS obeys the limit as well
+				if L > 0 && L < 50000 {
+					for _, n := range []int{L, L + 1} {
+						pad := n - (4 + 5 + 2 + 8 + 1 + 1)
+						su := startupMsg("user", "u", "options", strings.Repeat("o", pad))
+						m2 := append([][]byte{su}, msgs[1:]...)
+						emitTLS(c, only, &id, class+"_startup", cfg, sslRequest(), nil, m2, "")
+					}
+				}
+			}
+		}
+	}
+}
+
 func runC10(c *runCfg) error {
 	if c.replay != "" {
+		if b, err := os.ReadFile(c.replay); err == nil && bytes.Contains(b, []byte("(tlsobs ")) {
+			runC10TLS(c, tlsOnly(c))
+			return nil
+		}
 		return replaySessions(c)
 	}
+	runC10TLS(c, nil)
 	id := 0
 	limits := []int{1, 2, 5, 16, 40}
 	if c.tier == "thorough" {
